@@ -403,10 +403,12 @@ def run(prop, tier):
     from ..py2coq import misctie
     tie_f = misctie.tie_group("fmt")
     tie_g = misctie.tie_group("guards")
-    # the formatter tie and the guards tie are reported together (one entry each in the obligations)
-    tie_f = {"ok": tie_f["ok"] and tie_g["ok"], "obligations": tie_f["obligations"] + tie_g["obligations"],
-             "detail": " | ".join(t["detail"] for t in (tie_f, tie_g) if not t["ok"]) or (tie_f["detail"] + " | " + tie_g["detail"]),
-             "undischarged": ([] if tie_f["ok"] else tie_f["obligations"]) + ([] if tie_g["ok"] else tie_g["obligations"])}
+    tie_l = misctie.tie_group("loops")       # for the fields the print worker hands to the --printf template (tie_fields)
+    # the formatter tie, the guards tie and the workers tie are reported together
+    parts = (tie_f, tie_g, tie_l)
+    tie_f = {"ok": all(t["ok"] for t in parts), "obligations": sum((t["obligations"] for t in parts), []),
+             "detail": " | ".join(t["detail"] for t in parts if not t["ok"]) or " | ".join(t["detail"] for t in parts),
+             "undischarged": sum(([] if t["ok"] else t["obligations"] for t in parts), [])}
     proof["tie_obligations"] = tie["obligations"] + tie_f["obligations"]
     proof["undischarged"] = ([] if tie["ok"] else tie["obligations"]) + tie_f["undischarged"]
     proof["trusted"] = [
@@ -616,7 +618,7 @@ def run(prop, tier):
     elif (not tie["ok"] or not tie_f["ok"]) and not mism and "could not be extracted" not in str(tie.get("detail", "")):
         res.tie_undischarged(("table tie broken: " + tie["detail"][:500] if not tie["ok"] else "") + (" translation tie broken: " + tie_f["detail"][:500] if not tie_f["ok"] else "")
                              + " -- the end-to-end runs and the formatter correspondence agree everywhere and the statement's clauses found no failing input",
-                             {"no_longer_checks": ("CliTie.v (tie_options / tie_kwargs) " if not tie["ok"] else "") + ("TieFmt.v (tie_fields) / TieGuards.v (tie_join_guard, tie_record_flag)" if not tie_f["ok"] else ""),
+                             {"no_longer_checks": ("CliTie.v (tie_options / tie_kwargs) " if not tie["ok"] else "") + ("TieFmt.v (tie_fields) / TieGuards.v (tie_join_guard, tie_record_flag) / TieLoops.v (tie_fields: what the print worker formats)" if not tie_f["ok"] else ""),
                               "tie_detail": [tie["detail"], tie_f["detail"]]})
     elif not tie["ok"] or not tie_f["ok"] or mism:
         what = []
